@@ -1,13 +1,13 @@
 SPECIFICATION Spec
 CONSTANTS
-  TableCodes = {1, 2, 3, 4, 5, 6, 9, 10, 11, 12, 13, 14, 15, 16, 21, 22, 23, 24, 25, 26, 27, 28, 29, 30, 31, 32, 33}
+  TableCodes = {}
   SeqCodes = {1, 2}
-  MaxLen = 7
-  OptLen = 4
-  MaxCodons = 3
-  PairCodons = 1
-  LongLens = {}
-  SymLen = 3
+  MaxLen = 0
+  OptLen = 0
+  MaxCodons = 0
+  PairCodons = 0
+  LongLens = {765, 768, 770, 771}
+  SymLen = 0
 INVARIANT TypeOK
 INVARIANT RcInvolution
 INVARIANT ComplementLaws
